@@ -183,6 +183,41 @@ func VxC02() {
 		}
 		vxAssert(got == want, "{for x in xs if cond for y in ys for z in zs} differs from the nested existence loops")
 		vxSameSlice(gt, vxTake(), "{for x in xs if cond for y in ys for z in zs} (evaluation trace)")
+	case 20:
+		{
+			n := 0
+			var want []int
+			for _, x := range xs {
+				if n++; n%2 == 0 {
+					want = append(want, x)
+				}
+			}
+			vxSameSlice(ComprInitInc(xs), want, "[x for x in xs if n++; cond]")
+		}
+		{
+			got := ComprInitCall(xs)
+			gt := vxTake()
+			var want []int
+			for _, x := range xs {
+				if f(9, x); cond(1, x) {
+					want = append(want, x+1)
+				}
+			}
+			vxSameSlice(got, want, "[e for x in xs if f(x); cond]")
+			vxSameSlice(gt, vxTake(), "[e for x in xs if f(x); cond] (evaluation trace: the init statement runs before every test)")
+		}
+		{
+			n := 0
+			wv, wok := 0, false
+			for _, x := range xs {
+				if n += x; n > 3 {
+					wv, wok = x*2, true
+					break
+				}
+			}
+			gv, gok := SelectInitInc(xs)
+			vxAssert(gv == wv+n*100 && gok == wok, "v, ok := {e for x in xs if n += x; cond} differs from the selection loop")
+		}
 	case 15:
 		vxAssert(CommandCall(a, b) == a*7+b+1, "command-style call differs from the ordinary call")
 	case 16:
